@@ -165,7 +165,7 @@ Record state := {
   sched : option (version * Z);         (* scheduled requirements, target height *)
   jlog : list (addr * (Z * Z));         (* jail log: last sentence, jailed at *)
   until : list (addr * Z);              (* slashing: jailed until *)
-  prev_unjailed : list addr             (* ghost: the validators unjailed at the end of the last processed block *)
+  prev_unjailed : list addr             (* ghost: the validators that were unjailed when the last processed end-block ran its grace update (i.e. before that block's sweep) *)
 }.
 
 Definition set_clock (s : state) (h t : Z) : state :=
